@@ -49,7 +49,45 @@ def write_bed(path, loci, gz=False):
     return path
 
 
-def write_snv_vcf(path, contigs, snvs, extra_header=()):
+def _variant_lines(contigs, v, hrng):
+    """VCF lines for one SNV.  With a hostile rng the SAME allele list is spread over several records and surrounded by
+    records every program must ignore: a multi-allelic SNV may be split into two records at one position (the programs merge
+    them: REF + alleles in order of first appearance, which is the original order because the split is prefix / suffix with an
+    optional overlap), and deletion / insertion / MNP / mixed records (not SNVs, skipped by the programs) may share its position."""
+    def line(ref, alts):
+        return "%s\t%d\t%s\t%s\t%s\t.\t.\t%s\n" % (v["contig"], v["pos0"] + 1, v.get("id", "."), ref, ",".join(alts) if alts else ".", v.get("info", "."))
+
+    alts = list(v["alts"])
+    if hrng is None or "id" in v or "info" in v:
+        return [line(v["ref"], alts)]
+    out = []
+    if len(alts) >= 2 and hrng.random() < 0.5:
+        k = int(hrng.integers(1, len(alts)))
+        k2 = int(hrng.integers(0, k + 1))
+        out += [line(v["ref"], alts[:k]), line(v["ref"], alts[k2:])]
+    else:
+        out.append(line(v["ref"], alts))
+    seq = contigs[v["contig"]]
+    p = v["pos0"]
+    if hrng.random() < 0.3 and p + 3 < len(seq):
+        kind = int(hrng.integers(4))
+        other = [b for b in BASES if b != seq[p]]
+        if kind == 0:    # deletion anchored at the SNV position
+            extra = line(seq[p : p + 2], [seq[p]])
+        elif kind == 1:  # insertion
+            extra = line(seq[p], [seq[p] + other[0]])
+        elif kind == 2:  # MNP
+            extra = line(seq[p : p + 2], [other[1] + seq[p + 1]])
+        else:            # mixed SNV + insertion record: not an SNV record, skipped as a whole
+            extra = line(seq[p], [other[2], seq[p] + "T"])
+        if hrng.random() < 0.5:
+            out.insert(0, extra)
+        else:
+            out.append(extra)
+    return out
+
+
+def write_snv_vcf(path, contigs, snvs, extra_header=(), hostile_rng=None):
     """snvs: list of dict(contig, pos0, ref, alts[, id]) ; written sorted, bgzipped and tabix indexed."""
     import pysam
 
@@ -62,7 +100,8 @@ def write_snv_vcf(path, contigs, snvs, extra_header=()):
             fh.write(h + "\n")
         fh.write("#CHROM\tPOS\tID\tREF\tALT\tQUAL\tFILTER\tINFO\n")
         for v in sorted(snvs, key=lambda v: (order[v["contig"]], v["pos0"])):
-            fh.write("%s\t%d\t%s\t%s\t%s\t.\t.\t%s\n" % (v["contig"], v["pos0"] + 1, v.get("id", "."), v["ref"], ",".join(v["alts"]) if v["alts"] else ".", v.get("info", ".")))
+            for ln in _variant_lines(contigs, v, hostile_rng):
+                fh.write(ln)
     return pysam.tabix_index(path, preset="vcf", force=True)
 
 
@@ -331,7 +370,13 @@ class Dataset:
 
     def write_reference(self):
         self.fasta = write_fasta(self.path("ref.fa"), self.contigs)
-        self.vcf = write_snv_vcf(self.path("snvs.vcf"), self.contigs, self.snvs)
+        # the variants file carries split multi-allelic records and non-SNV records in about half of the datasets; the choice
+        # derives from the reference text, not from the caller's rng, so that no other part of a dataset changes with it
+        import zlib
+
+        hrng = np.random.default_rng(zlib.crc32("".join(self.contigs.values()).encode()))
+        self.hostile_variants = bool(hrng.random() < 0.5)
+        self.vcf = write_snv_vcf(self.path("snvs.vcf"), self.contigs, self.snvs, hostile_rng=hrng if self.hostile_variants else None)
         self.bed = write_bed(self.path("targets.bed"), [(l["contig"], l["start"], l["stop"], l["name"]) for l in self.loci])
 
     def rg_to_sample(self, bam, field="SM"):
